@@ -57,6 +57,13 @@ CHECKS = {
             "virtual clock, faults, cancellation, h2-capable pools against h1 servers.",
             "Liveness is decided as deadlock-freedom in a closed simulated world with a fair fallback scheduler; schedules sampled.",
             "3 C07"),
+    "C08": ("exploration",
+            "controlled-thread scheduling (real threads, harness-owned baton scheduler with lock/op/source-line pre-emption points): Hypothesis-generated PCT-style schedules plus a systematic enumeration of every single pre-emption point of five base scenarios; oracle = token echo, no exception from a well-behaved server, limit, deadlock detection",
+            "2-4 threads share one sync pool; the harness decides at every SimNet op, cooperative lock/event/semaphore operation and (optionally) "
+            "every source line of the sync package which thread runs. Generated switch sets, and for five two-thread base scenarios every yield point x "
+            "switch-back distance 0-3. Every request must return its own response without any exception, the limit must hold, no deadlock.",
+            "stdlib threading is trusted and replaced by cooperative stand-ins inside httpcore._synchronization; interleavings are sampled / single-preemption exhaustive.",
+            "3 C08"),
     "C09": ("exploration",
             "model-based stateful testing: Hypothesis-generated operation sequences applied in lock-step to live sync and asyncio pools and to a reference keep-alive model fed by wire observations",
             "Generated sequences of requests, streaming opens, (partial) closes, clock advances and server-side closes over 1-3 origins for drawn "
